@@ -90,6 +90,18 @@ def extract(repo=None):
     if not m:
         raise ExtractError("cannot find the ucs4/ucs2 special case in matchFeatureLists")
     c["UR_QUERY_SPECIAL"], c["UR_TABLE_SPECIAL"] = m.group(1), m.group(2)
+    # isLanguageTag: the whole key must be one of the three names (fix of C18-F3), not a prefix
+    ilt = function_body(src, "isLanguageTag")
+    if not re.search(r"size_t\s+n\s*=\s*strnlen\s*\(\s*key\s*,\s*len\s*\)\s*;", ilt):
+        raise ExtractError("isLanguageTag: key length is not taken with strnlen(key, len)")
+    names = []
+    for m in re.finditer(r'n\s*==\s*strlen\s*\(\s*"(\w+)"\s*\)\s*&&\s*strncasecmp\s*\(\s*"(\w+)"\s*,\s*key\s*,\s*n\s*\)\s*==\s*0', ilt):
+        if m.group(1) != m.group(2):
+            raise ExtractError("isLanguageTag: length of %r tested with name %r" % (m.group(2), m.group(1)))
+        names.append(m.group(1))
+    if names != ["language", "region", "locale"]:
+        raise ExtractError("isLanguageTag: expected exact matches of language, region, locale; found %r" % names)
+    c["LANG_KEYS"] = names
     mlt = function_body(src, "matchLanguageTags")
     c["LANG_POS_MATCH"] = _static_int(mlt, "POS_MATCH", "matchLanguageTags")
     c["LANG_EXTRA"] = _static_int(mlt, "EXTRA", "matchLanguageTags")
@@ -166,6 +178,8 @@ def render(c):
     L.append("/-! matchLanguageTags -/")
     L.append("def LANG_POS_MATCH : Int := %d" % c["LANG_POS_MATCH"])
     L.append("def LANG_EXTRA : Int := %d" % c["LANG_EXTRA"])
+    L.append("/-- isLanguageTag: the keys whose values are language tags (whole key, case-insensitive) -/")
+    L.append("def LANG_KEYS : List (List Nat) := [%s]  -- %s" % (", ".join(_bytes(n) for n in c["LANG_KEYS"]), ", ".join(c["LANG_KEYS"])))
     L.append("/-- parseLanguageTag: a subtag has 1..SUBTAG_MAX characters -/")
     L.append("def SUBTAG_MAX : Nat := %d" % c["SUBTAG_MAX"])
     L.append("")
